@@ -1,7 +1,7 @@
 #!/bin/bash
 # confirm_seed.sh <propid> <A|B> : in the scratch worktree /tmp/seed/<propid>: the change applies, the 31 existing tests
 # pass with it, the demonstration fails with it and passes without it.  Prints one summary line.
-id="$1"; v="$2"; wt=/tmp/seed/$id; out=/tmp/seed/$id.out
+id="$1"; v="$2"; root="${SEEDROOT:-/tmp/seed}"; wt=$root/$id; out=$root/$id.out
 export CARGO_TARGET_DIR=$wt/target RUST_BACKTRACE=0 CARGO_NET_OFFLINE=true
 cd $wt || exit 2
 git checkout -q -- . ; rm -f tests/zz_seed_demo.rs
